@@ -516,7 +516,15 @@ def gen_script(rng, allow_reentrant=True):
 
 def gen_contend_program(rng, profile):
     n = _w(rng, [(2, 4), (3, 4), (4, 2), (8, 1), (16, 0.5)])
-    return {'world': 'proc-contend', 'scripts': [gen_script(rng) for _ in range(n)]}
+    prog = {'world': 'proc-contend', 'scripts': [gen_script(rng) for _ in range(n)]}
+    if rng.random() < 0.25:
+        # the usual multiprocessing set-up: one FileLock object made (and already used once) by the parent, which stays alive,
+        # and used by several of its fork() children - they are still "different processes" contending for one lock file
+        prog['inherit'] = True
+        for sc in prog['scripts']:
+            if rng.random() < 0.7:
+                sc.update(inherit=True, reentrant=False, nest=1)
+    return prog
 
 
 def execute_contend(prog, sspec):
@@ -525,9 +533,17 @@ def execute_contend(prog, sspec):
     ctl = Controller(path, path + '.marker')
     rng = random.Random(sspec.get('seed', 0))
     end = 'normal'
+    pre = None
     try:
+        if prog.get('inherit'):
+            _, fl = env.aiuti()
+            pre = fl.FileLock(path)
+            assert pre.acquire(blocking=False)
+            pre.release()
+            ctl.inherited = pre
         for s in prog['scripts']:
             ctl.spawn(s)
+        ctl.inherited = None
         r = ctl.run_all(rng)
         if r == 'deadlock':
             end = 'deadlock'
@@ -540,12 +556,18 @@ def execute_contend(prog, sspec):
             if c.state == 'error':
                 ctl.viol('HARNESS', 'harness.child_error', 'child script raised', f'child {c.idx}')
     finally:
+        if pre is not None:
+            try:
+                pre.release(force=True)
+            except Exception:  # noqa
+                pass
         ctl.cleanup()
     entries = sum(c.entries for c in ctl.children)
     return {'end': end, 'violations': ctl.violations, 'digest': ctl.log.hexdigest(), 'steps': ctl.steps, 'vtime': 0.0,
             'switches': [], 'nswitch': ctl.steps, 'edges': set(), 'faults': {},
             'probes': {'proc.section_entries': entries, 'proc.failed_acquires': sum(c.failed for c in ctl.children),
-                       'proc.processes': len(ctl.children)},
+                       'proc.processes': len(ctl.children),
+                       'proc.children_on_inherited_object': sum(1 for sc in prog['scripts'] if sc.get('inherit'))},
             'leaked': 0, 'nontrivial': len(prog['scripts']) >= 2 and entries >= 1,
             'outcomes': [(c.idx, c.entries, c.failed) for c in ctl.children]}
 
